@@ -14,5 +14,5 @@ CONSTANTS
 CONSTRAINT Mark
 POSTCONDITION TraceAccepted
 INVARIANTS TypeOK DeletedHasNoStorage NotIndexedOnceDeleted ChildrenFollowDone MirrorSound LoggedTombstoned NoOverDelete LiveStored
-PROPERTIES T_StatusMonotone T_NoStorageReappears T_AttemptsFail T_NeverReAdded T_ChildrenFollowLate T_SurvivesRestart T_DeletedIdsGrowOnly
+PROPERTIES T_StatusMonotone T_NoStorageReappears T_AttemptsFail T_NeverReAdded T_ChildrenFollowLate T_SurvivesRestart T_DeletedIdsGrowOnly T_KidsHandled
 CHECK_DEADLOCK FALSE
